@@ -44,7 +44,7 @@ func c15SessionPublish(e *c15env) {
 		}
 		return
 	}
-	res := analyze(c, f, flow.Config{
+	res := e.analyse(f, fns, flow.Config{
 		NoHavoc: true,
 		Inline:  e.inline(f, e.writePacket, e.getClient),
 		OnNode: func(st *flow.State, n ast.Node) {
@@ -62,7 +62,7 @@ func c15SessionPublish(e *c15env) {
 	})
 	if res != nil {
 		for _, w := range writes {
-			states := res.At[w.node]
+			states := res.at(w.node)
 			if len(states) == 0 && (w.fn.Body != f.Body || c15enclosingLit(w.fn, w.node) != nil) {
 				c.Undecide("R-C15-3", cons+"|pending+queue before write, under lock", pos(c, w.node), "the code writing the packet ("+c15declName(w.fn)+") is not interpreted in place (function literal, go, defer or nested call)")
 				continue
@@ -90,7 +90,7 @@ func c15SessionPublish(e *c15env) {
 		// helpers' included)
 		lockedStores, stores := 0, 0
 		var badStore ast.Node
-		for n, sts := range res.At {
+		for n, sts := range res.all() {
 			as, ok := n.(*ast.AssignStmt)
 			if !ok {
 				continue
@@ -173,7 +173,7 @@ func c15SessionPuback(e *c15env) {
 		c.Violate("R-C15-3", cons+"|delete pending[MessageID]", pos(c, f.Body), "puback does not delete the acknowledged id from pending: the message is retransmitted forever")
 		return
 	}
-	res := analyze(c, f, flow.Config{NoHavoc: true, Inline: e.inline(f, e.writePacket, e.getClient), OnCall: e.hookLock})
+	res := e.analyse(f, e.reachOf(f, 2), flow.Config{NoHavoc: true, Inline: e.inline(f, e.writePacket, e.getClient), OnCall: e.hookLock})
 	for _, d := range dels {
 		// the key is the MessageID of the acknowledged packet (through locals / helper parameters)
 		keyOK := true
@@ -195,7 +195,7 @@ func c15SessionPuback(e *c15env) {
 		if res == nil {
 			continue
 		}
-		states := res.At[d.call]
+		states := res.at(d.call)
 		if len(states) == 0 {
 			c.Undecide("R-C15-3", cons+"|delete under lock", pos(c, d.call), "the delete is not reached by the interpretation of puback (helper called by go/defer/nested call, or dead code)")
 			continue
@@ -240,7 +240,7 @@ func c15SessionResend(e *c15env) {
 		})
 	}
 	retKey := func(r *ast.ReturnStmt) string { return sprintf("ev:ret@%d", r.Pos()) }
-	res := analyze(c, f, flow.Config{
+	res := e.analyse(f, fns, flow.Config{
 		NoHavoc: true,
 		Inline:  e.inline(f, e.writePacket, e.getClient),
 		OnCall: func(st *flow.State, call *ast.CallExpr, callee types.Object, deferred bool) {
@@ -262,7 +262,7 @@ func c15SessionResend(e *c15env) {
 	}
 	for _, w := range writes {
 		wcons := cons + "|resend only pending ids, same id, under lock"
-		states := res.At[w.node]
+		states := res.at(w.node)
 		if len(states) == 0 {
 			if w.fn.Body != f.Body || c15enclosingLit(w.fn, w.node) != nil {
 				c.Undecide("R-C15-3", wcons, pos(c, w.node), "the code writing the packet ("+c15declName(w.fn)+") is not interpreted in place (function literal, go, defer or nested call)")
@@ -282,7 +282,7 @@ func c15SessionResend(e *c15env) {
 			}
 		}
 		live := func(h *flow.Func, r *ast.ReturnStmt) bool {
-			if !c15inlined(res, h) {
+			if !res.inlined(h) {
 				return true
 			}
 			return liveSet[r]
@@ -359,6 +359,7 @@ func c15SessionResend(e *c15env) {
 			want flow.Val
 		}
 		var lookups []lookup
+		otherLookups := 0
 		for _, g := range fns {
 			ast.Inspect(g.Body, func(n ast.Node) bool {
 				as, ok := n.(*ast.AssignStmt)
@@ -378,6 +379,9 @@ func c15SessionResend(e *c15env) {
 							hit = true
 						}
 					}
+					if !hit && (t.rng != nil && !t.key && isQueue(t.fn, t.rng.X) || t.rng == nil && t.idx < 0 && c15indexOf(t.expr) != nil && isQueue(t.fn, c15indexOf(t.expr).X)) {
+						otherLookups++ // the pending test is made on another reading of the queue (loop split in two)
+					}
 				}
 				if !hit {
 					return true
@@ -396,6 +400,10 @@ func c15SessionResend(e *c15env) {
 			})
 		}
 		if len(lookups) == 0 {
+			if otherLookups > 0 {
+				c.Undecide("R-C15-3", cons+"|resend only ids still pending", pos(c, w.node), "pending is tested for an element of the resend queue read at another place than the id that is re-sent: cannot relate the two readings")
+				continue
+			}
 			c.Violate("R-C15-3", cons+"|resend only ids still pending", pos(c, w.node), "no lookup `_, ok := pending[id]` of the re-sent id guards the resend")
 			continue
 		}
@@ -415,6 +423,15 @@ func c15SessionResend(e *c15env) {
 			case !st.Is("ev:locked", flow.True):
 				ok, bad, why = false, st, "session lock not held while resending"
 			}
+		}
+		if !ok && otherLookups > 0 && bad != nil && bad.Is("ev:locked", flow.True) {
+			c.Undecide("R-C15-3", wcons, pos(c, w.node), "pending is also tested for an element of the resend queue read at another place than the id that is re-sent: cannot relate the two readings")
+			continue
+		}
+		if !ok && c15enclosingLit(w.fn, w.node) != nil && bad != nil && bad.Is("ev:locked", flow.True) {
+			// only the lookup can have happened before the literal ran; the lock state at its start is known
+			c.Undecide("R-C15-3", wcons, pos(c, w.node), "the write sits in a function literal interpreted on its own (what happened before the literal ran is not known there): "+why)
+			continue
 		}
 		c.Check(ok, "R-C15-3", wcons, pos(c, w.node),
 			sprintf("%d states at writePacket: lookup of the id in pending succeeded, MessageID = queue element, locked", len(states)), why, witness(bad)...)
